@@ -55,6 +55,13 @@ def run(ck, tier, seed):
     ck.extra["impl"] = {"facelife": h.summary["extra"]}
     if not validate(ck, trace, "TLC histories"):
         return
+    # the deprecated entry point that takes the same callbacks (gr_make_face_with_seg_cache_and_ops): same discipline
+    from checks import flcommon as fl
+    cfgc = fl.write_cfg("_c16c_%d.cfg" % os.getpid(), Kinds='{"good", "noname", "badsilf", "badglyph", "compressed"}', Srcs='{"opsc"}', Texts="{0}",
+                        ClientOps='{"label", "shape", "make_font", "destroy_font"}', MaxOps=2)
+    okc, _ = fl.run_histories(ck, tmp, "seg-cache-entry-point", cfgc, "FaceLifeTrace.cfg", exe)
+    if not okc:
+        return
     # binding demonstration: drop one release event -> the trace must be rejected
     lines = open(trace).read().splitlines()
     rng = random.Random(seed)
